@@ -39,6 +39,12 @@ def generate(rng, n, tier, stats):
         nd = rng.randint(1, 4)
         lens = [rng.randint(1, 4) for _ in range(nd)]
         single = rng.random() < 0.2
+        # median with skipna=False masks the slices that hold a NaN, slice by slice: NaNs in SOME of the slices, reduced along the
+        # first dimension (or a tuple of dimensions, which is reduced at position 0 after flattening)
+        focus_med = rng.random() < 0.05
+        if focus_med:
+            name = 'median'; dtype = 'f'; single = False; nd = rng.randint(2, 3); lens = [rng.randint(2, 4) for _ in range(nd)]
+            stats['median_nan_in_some_slices']['yes'] += 1
         if single and dtype == 'f' and rng.random() < 0.5: name = rng.choice(['median', 'median', 'mean', 'min'])
         if single:
             # single-element / single-slice results: every dimension but one has size 1
@@ -55,8 +61,12 @@ def generate(rng, n, tier, stats):
             if single and name == 'median': pat = rng.choice(['some', 'some', 'none'])
             # ptp has no nan-aware numpy function: it goes through the masked-array wrapper, whose all-NaN slices must come back as NaN
             if name == 'ptp' and not single: pat = rng.choice(['slice', 'slice', 'all', 'some', 'none'])
+            if focus_med: pat = 'few'
             stats['nan_pattern'][pat] += 1
-            if pat == 'some': a['flat'] = [float('nan') if rng.random() < 0.25 else v for v in a['flat']]
+            if pat == 'few':
+                a['flat'] = list(a['flat']); a['flat'][rng.randrange(size)] = float('nan')
+                if rng.random() < 0.5: a['flat'][rng.randrange(size)] = float('nan')
+            elif pat == 'some': a['flat'] = [float('nan') if rng.random() < 0.25 else v for v in a['flat']]
             elif pat == 'slice' and nd >= 1:
                 d = rng.randrange(nd); j = rng.randrange(lens[d])
                 for k, c in enumerate(itertools.product(*[range(x) for x in lens])):
@@ -68,10 +78,12 @@ def generate(rng, n, tier, stats):
         # all / any with skipna=True ignore the NaNs too: over an all-NaN slice nothing is left, all() is True and any() is False
         if name in ('all', 'any') and dtype == 'f' and rng.random() < 0.5: skipna = True; stats['all_any_skipna'][pat] += 1
         if dtype == 'b' and skipna: skipna = False
+        if focus_med: skipna = False
         form = rng.choice(['name', 'pos', 'none', 'tuple'])
         if single and form in ('none', 'tuple'): form = rng.choice(['name', 'pos'])
-        if form == 'name': ax = a['dims'][keep if single else rng.randrange(nd)]
-        elif form == 'pos': ax = keep if single else rng.randrange(nd)
+        if focus_med: form = rng.choice(['name', 'pos', 'tuple'])
+        if form == 'name': ax = a['dims'][keep if single else (0 if focus_med else rng.randrange(nd))]
+        elif form == 'pos': ax = keep if single else (0 if focus_med else rng.randrange(nd))
         elif form == 'none': ax = None
         else:
             k = rng.randint(1, nd); idx = rng.sample(range(nd), k)
